@@ -57,6 +57,7 @@ Fails(c, s) ==
     [] c.kind = "csat"    -> C05SatFails(c)
     [] c.kind = "miter"   -> C13Fails(c)
     [] c.kind = "pass"    -> IF c.prop = "C03" THEN C03Fails(c) ELSE C18Fails(c)
+    [] c.kind = "transformdeep" -> DeepTransformFails(c)
     [] c.kind = "trav"    -> C20TravFails(c)
     [] c.kind = "topsort" -> C20TopFails(c)
     [] c.kind = "travdeep" -> C20DeepFails(c)
@@ -70,6 +71,7 @@ Drift(c, s) == IF c.kind = "hist" THEN HistDrift(c, s)
                ELSE IF c.kind = "cnf" THEN C05CnfDrift(c) \cup C05EncoderDrift(c)
                ELSE IF c.kind = "cnfdeep" THEN C05DeepDrift(c)
                ELSE IF c.kind = "evaldeep" THEN C01DeepDrift(c)
+               ELSE IF c.kind = "transformdeep" THEN DeepTransformDrift(c)
                ELSE IF c.kind = "arith" THEN ArithDrift(c)
                ELSE IF c.kind = "minimize" THEN C04ConeDrift(c) ELSE {}
 
